@@ -6,6 +6,8 @@ From Coq Require Import Extraction ExtrOcamlBasic NArith ZArith List String.
 From FitV Require Import Model.Values Model.Bytes Model.Base Model.Profile Model.Header Model.Components
   Model.Route Model.Encode Spec.Grammar Spec.RoundTrip.
 From FitV Require Import Gen.RoutingData Gen.ProfileData.
+(* the record list Encode lays out and the time side condition of the stream theorem C06_roundtrip *)
+From FitV Require Import Proofs.C06Recs Proofs.StreamDenoteDefs.
 
 Extraction Language OCaml.
 Extraction "fitmodel_enc.ml"
@@ -14,5 +16,6 @@ Extraction "fitmodel_enc.ml"
   Grammar.hdrsize Grammar.datasize Grammar.hdrcrc Grammar.filecrc Grammar.header_ok Grammar.trailer_ok
   RoundTrip.in_domain RoundTrip.wf_file RoundTrip.content_eq6 RoundTrip.content_eq7 RoundTrip.diff6 RoundTrip.diff7
   RoundTrip.norm_msg RoundTrip.trunc_msg RoundTrip.expected_msg
+  C06Recs.file_recs StreamDenoteDefs.no_time_quirk StreamDenoteDefs.stream_wf
   Route.ft_entry Route.file_type RoutingData.file_types
   Z.add N.add Nat.add.
